@@ -17,7 +17,7 @@ import framegen, synth
 def trained(rng, n, per):
     """[(dict, id, [frame items])] from libzstd's trainer and compressor"""
     out = []
-    for _ in range(n):
+    for idx in range(n):
         samples = [framegen.gen_content(rng, rng.choice(['small', 'small', 'tiny']))[0] for _ in range(14)]
         samples = [s if len(s) > 200 else s * 40 + b'x' for s in samples]
         rc, res, err = zh('codec', ['ztrain %d %s' % (rng.choice([600, 1000, 4000, 16000]), ' '.join(hexs(s) for s in samples))])
@@ -25,6 +25,12 @@ def trained(rng, n, per):
         if not w or w[0] != 'ok':
             continue
         d = bytes.fromhex(w[1])
+        # the trainer only picks 4-byte ids; the id is a plain field of the dictionary, so give some dictionaries an id
+        # that frames name with a 1-byte or 2-byte field
+        k_id = idx % 3
+        if k_id < 2:
+            new_id = rng.range(1, 255) if k_id == 0 else rng.range(256, 65535)
+            d = d[:4] + new_id.to_bytes(4, 'little') + d[8:]
         items, lines = [], []
         for k in range(per):
             s = rng.choice(samples)
@@ -77,8 +83,8 @@ def run(chk):
     # ---- component 2: hand-built dictionaries, frames reaching every alignment with the boundary
     nsyn = 0
     feats = {}
-    for _ in range(6 if thorough else 3):
-        d, info = synth.make_dictionary(rng)
+    for idx in range(6 if thorough else 3):
+        d, info = synth.make_dictionary(rng, dict_id=[None, rng.range(1, 255), rng.range(256, 65535)][idx % 3])
         for named in (True, False):
             for f in synth.make_dict_boundary_frames(rng, 50 if thorough else 22, info, name_dict=named):
                 force = '' if named else 'force=%d ' % info['id']
